@@ -9,14 +9,22 @@ import H3.Spec.Qpack
     The handler interprets the scenario shapes `tools/props/c10.py` generates (anything else
     prints `unsupported`, which shows up as a correspondence break):
 
-      lim <server|client> <mfs=N|-> <conn.AL|drv.W> op…
+      lim <server|client> <cfg: mfs=N, bc=N, seed=N | -> op…
+        conn.AL          server: the accept loop runs (first op of every server line)
+        drv.W            client: the driver is polled from here on (`wait_idle`).  Without it the
+                         bytes of the peer's control stream stay in the transport: the peer's
+                         SETTINGS are *applied* (stored in the shared cell) only once the driver runs
         o<id>            peer opens its control stream (2 towards a server, 3 towards a client)
                          or, towards a server, request stream 0
         s<ctl>:<hex>     one chunk `00 04 <len> <settings payload>` on the control stream
         s0:<hex> / f0    bytes / FIN on request stream 0 (whole frames)
+        gb<n>            the peer grants n bidirectional streams (cfg `bc=<n>`: initial credit;
+                         `snd.R` without credit is pending inside `poll_open_bidi` until a grant)
         q0.res           server: resolve_request          snd.R:GET:<https://a/ hex>:<hdrs>  client
         q0.sr:<status>:<hdrs>  send_response              q0.rr   recv_response
         q0.st:<hdrs>     send_trailers                    q0.rt   recv_trailers
+        q0.sp            split: `q0` keeps the receive half (`q0.rr`, `q0.rt`), the send half is
+                         task `q0s` (`q0s.sr:…`, `q0s.st:…`)
 
     and prints what `Prop.project` keeps of the real run: the results of the `q0`/`snd` calls
     (`ok` without the message), the bytes written on stream 0 with its stop/reset codes, and
@@ -43,6 +51,12 @@ inductive SendD where
 structure Decisions where
   recv : RecvSite → Nat → List Nat → RecvD × Bool          -- Bool: D-15 tag
   send : Option Nat → List Field → SendD
+  /-- `send_request`, which may have waited for stream credit: the peer's SETTINGS cell when the
+      call was made and when the stream was opened (the request goes out right after that) -/
+  sendReq : Option Nat → Option Nat → List Field → SendD
+  /-- the limit the receive half of a request stream enforces after `split`, from the
+      endpoint's configured maximum -/
+  recvHalf : Nat → Nat
 
 /-! ### the model's decisions -/
 
@@ -53,13 +67,17 @@ def modelRecv (site : RecvSite) (mfs : Nat) (block : List Nat) : RecvD × Bool :
   | .tooBig a m s => (.tooBig (toString a) m s, lax)
   | .connError c => (.connError c, lax)
 
-def modelSend (applied : Option Nat) (fs : List Field) : SendD :=
-  match sendSite applied fs with
+def SendD.ofOut : SendOut → SendD
   | .written b => .written b
   | .refused a m => .refused (toString a) m
   | .panic => .panic
 
-def model : Decisions := ⟨modelRecv, modelSend⟩
+def modelSend (applied : Option Nat) (fs : List Field) : SendD := .ofOut (sendSite applied fs)
+
+def modelSendReq (atCall atOpen : Option Nat) (fs : List Field) : SendD :=
+  .ofOut (sendRequestSite atCall atOpen fs)
+
+def model : Decisions := ⟨modelRecv, modelSend, modelSendReq, fun mfs => (splitLimits mfs).2⟩
 
 /-! ### the specification's decisions -/
 
@@ -90,17 +108,33 @@ def specSend (applied : Option Nat) (fs : List Field) : SendD :=
       | .ok gs => if gs == want then .written block else .written [0xbad]
       | .error _ => .written [0xbad]
 
-def spec : Decisions := ⟨specRecv, specSend⟩
+/-- "h3 never sends a request … larger than the limit the peer has advertised, or than the
+    protocol default while the peer's SETTINGS have not yet arrived": what counts is the limit
+    in force when the request is sent, i.e. when its stream has been opened — not what the cell
+    held when the application made the call. -/
+def specSendReq (_atCall atSend : Option Nat) (fs : List Field) : SendD := specSend atSend fs
+
+/-- "accepted exactly when its size … does not exceed the receiver's configured maximum":
+    splitting a request stream does not change the endpoint's configured maximum. -/
+def spec : Decisions := ⟨specRecv, specSend, specSendReq, fun mfs => mfs⟩
 
 /-! ### the interpreter -/
 
 structure St where
   server : Bool
   mfs : Nat
+  /-- bidirectional streams this endpoint may still open (`none` = unlimited) -/
+  credit : Option Nat := none
   driving : Bool := false
   /-- peer's SETTINGS applied: its MAX_FIELD_SECTION_SIZE or the default when absent -/
   peer : Option Nat := none
   ctlOpen : Bool := false
+  /-- a SETTINGS frame has been delivered on the control stream -/
+  ctlSeen : Bool := false
+  /-- … and its value waits in the transport for the driver to be polled -/
+  ctlBuf : Option Nat := none
+  /-- `snd.R` pending in `poll_open_bidi`: the field list and the peer's cell at the time of the call -/
+  pendingReq : Option (List Field × Option Nat) := none
   /-- stream 0 exists / bytes received and not yet consumed / FIN seen -/
   s0 : Bool := false
   rx : List Nat := []
@@ -110,6 +144,8 @@ structure St where
   closed : List Nat := []
   /-- the `q0` task exists and is past the message head -/
   q0 : Bool := false
+  /-- `q0.sp` done: `q0` is the receive half, `q0s` the send half -/
+  split : Bool := false
   resolved : Bool := false
   trace : List String := []
   tag : Bool := false
@@ -143,9 +179,12 @@ def requestFields (hdrs : List Field) : List Field :=
 def connErr (s : St) (call : String) (code : Nat) : St :=
   { (s.log s!"{call}=err:conn:local:QPACK_DECOMPRESSION_FAILED") with closed := s.closed ++ [code], q0 := false }
 
+/-- the limit the stream object behind task `q0` applies to what it receives -/
+def St.recvLimit (d : Decisions) (s : St) : Nat := if s.split then d.recvHalf s.mfs else s.mfs
+
 /-- a receive site's decision applied to the state -/
 def applyRecv (d : Decisions) (site : RecvSite) (call okStr : String) (payload : List Nat) (s : St) : St :=
-  let (r, tag) := d.recv site s.mfs payload
+  let (r, tag) := d.recv site (s.recvLimit d) payload
   let s := { s with tag := s.tag || tag }
   match r with
   | .fields => s.log s!"{call}={okStr}"
@@ -155,41 +194,68 @@ def applyRecv (d : Decisions) (site : RecvSite) (call okStr : String) (payload :
   | .connError c => connErr s call c
   | .unsure => { s with unsure := true }
 
-def applySend (d : Decisions) (call okStr : String) (fs : List Field) (s : St) : St × Bool :=
-  match d.send s.peer fs with
+def applySent (r : SendD) (call okStr : String) (s : St) : St × Bool :=
+  match r with
   | .written b => ({ (s.log s!"{call}={okStr}") with tx := s.tx ++ headersFrame b }, true)
   | .refused a m => (s.log s!"{call}=err:toobig:{a}:{m}", false)
   | .panic => ({ s with bad := true }, false)
+
+def applySend (d : Decisions) (call okStr : String) (fs : List Field) (s : St) : St × Bool :=
+  applySent (d.send s.peer fs) call okStr s
+
+/-- `send_request` once its stream can be opened: stream 0 exists from here on (also when the
+    request is then refused), the limit is the decision's choice between the cell at the time of
+    the call and the cell now -/
+def openRequest (d : Decisions) (fs : List Field) (atCall : Option Nat) (s : St) : St :=
+  let (s, ok) := applySent (d.sendReq atCall s.peer fs) "snd.R" "req:0" { s with s0 := true }
+  { s with q0 := ok }
+
+/-- a grant of stream credit lets a pending `send_request` go on -/
+def resume (d : Decisions) (s : St) : St :=
+  match s.pendingReq, s.credit with
+  | some (fs, atCall), some (c + 1) => openRequest d fs atCall { s with pendingReq := none, credit := some c }
+  | _, _ => s
+
+/-- the driver, when it is polled, reads what the control stream holds -/
+def settle (s : St) : St :=
+  match s.driving, s.ctlBuf with
+  | true, some v => { s with peer := some v, ctlBuf := none }
+  | _, _ => s
 
 def splitOp (op : String) : String × String :=
   match op.splitOn ":" with
   | [] => ("", "")
   | a :: r => (a, ":".intercalate r)
 
-def step (d : Decisions) (s : St) (op : String) : St :=
+def step1 (d : Decisions) (s : St) (op : String) : St :=
   let unsupported : St := { s with bad := true }
   let ctl := if s.server then "2" else "3"
   if op == "conn.AL" then (if s.server then { s with driving := true } else unsupported)
   else if op == "drv.W" then (if s.server then unsupported else { s with driving := true })
-  else if !s.driving then unsupported
-  else if op == "o" ++ ctl then { s with ctlOpen := true }
+  else if s.server && !s.driving then unsupported
+  else if op == "o" ++ ctl then (if s.ctlOpen then unsupported else { s with ctlOpen := true })
   else if op == "o0" then (if s.server && !s.s0 then { s with s0 := true } else unsupported)
   else if op == "f0" then (if s.s0 then { s with fin := true } else unsupported)
+  else if op == "q0.sp" then (if s.q0 && !s.split then { (s.log "q0.sp=ok") with split := true } else unsupported)
   else
     let (head, arg) := splitOp op
     if head == "s" ++ ctl then
       match parseHex arg with
       | some (0 :: rest) =>
-        if !s.ctlOpen || s.peer.isSome then unsupported else
+        if !s.ctlOpen || s.ctlSeen then unsupported else
         match H3.Frame.decode rest with
         | .frame (.settings es) n =>
           if n ≠ rest.length then unsupported else
           let v := match es.find? (fun e => e.1 == H3.Gen.Consts.SETTING_MAX_HEADER_LIST_SIZE) with
             | some e => e.2
             | none => 2 ^ 62 - 1
-          { s with peer := some v }
+          { s with ctlSeen := true, ctlBuf := some v }
         | _ => unsupported
       | _ => unsupported
+    else if head.startsWith "gb" && arg == "" then
+      match (head.drop 2).toNat? with
+      | some n => resume d { s with credit := s.credit.map (· + n) }
+      | none => unsupported
     else if head == "s0" then
       match parseHex arg with
       | some bs => if s.s0 && !bs.isEmpty then { s with rx := s.rx ++ bs } else unsupported
@@ -211,41 +277,45 @@ def step (d : Decisions) (s : St) (op : String) : St :=
           | .written b => { (s.log s!"q0.res=err:toobig:{a}:{m}") with tx := s.tx ++ headersFrame b }
           | .refused a' m' => s.log s!"q0.res=err:toobig:{a'}:{m'}"
           | .panic => unsupported
-    else if head == "q0.sr" then
-      if !s.server || !s.q0 then unsupported else
+    else if head == "q0.sr" || head == "q0s.sr" then
+      -- sending goes through the whole stream before `split`, through the send half after it
+      if !s.server || !s.q0 || s.split != (head == "q0s.sr") then unsupported else
       let (status, hdrs) := splitOp arg
       match parseHdrs hdrs with
       | none => unsupported
-      | some hs => (applySend d "q0.sr" "ok" (⟨ascii ":status", ascii status⟩ :: hs) s).1
-    else if head == "q0.st" then
-      if !s.q0 then unsupported else
+      | some hs => (applySend d head "ok" (⟨ascii ":status", ascii status⟩ :: hs) s).1
+    else if head == "q0.st" || head == "q0s.st" then
+      if !s.q0 || s.split != (head == "q0s.st") then unsupported else
       match parseHdrs arg with
       | none => unsupported
-      | some hs => (applySend d "q0.st" "ok" hs s).1
+      | some hs => (applySend d head "ok" hs s).1
     else if head == "q0.rt" then
-      if !s.q0 || !s.resolved || !s.fin then unsupported else
+      if !s.q0 || !s.resolved || !s.fin || !s.driving then unsupported else
       match nextHeaders s with
       | none => unsupported
       | some (payload, s) =>
         if !s.rx.isEmpty then unsupported else
         applyRecv d (if s.server then .serverTrailers else .clientTrailers) "q0.rt" "trailers" payload s
     else if head == "snd.R" then
-      if s.server || s.s0 then unsupported else
+      if s.server || s.s0 || s.pendingReq.isSome then unsupported else
       match arg.splitOn ":" with
       | ["GET", "68747470733a2f2f612f", hdrs] =>
         match parseHdrs hdrs with
         | none => unsupported
         | some hs =>
-          let (s, ok) := applySend d "snd.R" "req:0" (requestFields hs) { s with s0 := true }
-          { s with q0 := ok }
+          match s.credit with
+          | some 0 => { s with pendingReq := some (requestFields hs, s.peer) }
+          | c => openRequest d (requestFields hs) s.peer { s with credit := c.map (· - 1) }
       | _ => unsupported
     else if head == "q0.rr" then
-      if s.server || !s.q0 || s.resolved then unsupported else
+      if s.server || !s.q0 || s.resolved || !s.driving then unsupported else
       match nextHeaders s with
       | none => unsupported
       | some (payload, s) =>
         applyRecv d .clientResponse "q0.rr" "ok" payload { s with resolved := true }
     else unsupported
+
+def step (d : Decisions) (s : St) (op : String) : St := settle (step1 d s op)
 
 def render (s : St) : String :=
   let t := if s.trace.isEmpty then "-" else " ".intercalate s.trace
@@ -255,31 +325,33 @@ def render (s : St) : String :=
   let cl := ",".intercalate (s.closed.map toString)
   s!"{t} | {st}closed=[{cl}]"
 
-def run (d : Decisions) (server : Bool) (mfs : Nat) (ops : List String) : String :=
-  let s := ops.foldl (step d) { server := server, mfs := mfs }
+def run (d : Decisions) (server : Bool) (mfs : Nat) (credit : Option Nat) (ops : List String) : String :=
+  let s := ops.foldl (step d) { server := server, mfs := mfs, credit := credit }
   if s.bad then "unsupported"
   else if s.unsure then "?"
   else render s ++ (if s.tag then " #D-15" else "")
 
-/-- cfg: `-`, `mfs=<n>`, `seed=<n>` (task-order seed: no influence on the model) -/
-def parseCfg (c : String) : Option Nat :=
+/-- cfg: `-`, `mfs=<n>`, `bc=<n>` (initial bidirectional stream credit; unlimited when absent),
+    `seed=<n>` (task-order seed: no influence on the model) -/
+def parseCfg (c : String) : Option (Nat × Option Nat) :=
   (c.splitOn ",").foldl (fun acc t =>
     match acc with
     | none => none
-    | some mfs =>
-      if t == "-" || t == "" then some mfs
+    | some (mfs, bc) =>
+      if t == "-" || t == "" then some (mfs, bc)
       else match t.splitOn "=" with
-        | ["mfs", n] => n.toNat?
-        | ["seed", n] => n.toNat?.map fun _ => mfs
-        | _ => none) (some (2 ^ 62 - 1))
+        | ["mfs", n] => n.toNat?.map fun m => (m, bc)
+        | ["bc", n] => n.toNat?.map fun b => (mfs, some b)
+        | ["seed", n] => n.toNat?.map fun _ => (mfs, bc)
+        | _ => none) (some (2 ^ 62 - 1, none))
 
 def handle : List String → String
   | "lim" :: role :: cfg :: ops =>
     match parseCfg cfg with
     | none => "bad-op"
-    | some mfs =>
+    | some (mfs, bc) =>
       if role != "server" && role != "client" then "bad-op" else
-      run model (role == "server") mfs ops ++ " ## " ++ run spec (role == "server") mfs ops
+      run model (role == "server") mfs bc ops ++ " ## " ++ run spec (role == "server") mfs bc ops
   | _ => "bad-op"
 
 end H3.Drv.C10
